@@ -57,6 +57,8 @@ func runC05(c *Ctx) {
 			}
 		}
 		ruleFlagLoop(c, "R-FLAGLOOP", lp)
+		c03LoopEarlySuccess(c)
+		c05UnstableIsNotStable(c, "UNSTABLE-IS-NOT-STABLE", lp)
 		rulePathSetFresh(c, "PATH-SET-FRESH", lp, 1)
 		if q := p.Pkg("private/bufpkg/bufprotosource"); q != nil {
 			ruleSettersCalled(c, "SETTERS-CALLED", q, 3)
